@@ -2,6 +2,7 @@
 import itertools
 
 import common
+import c03_reader
 import preds
 from e2e import canon, concat_parts, exec_expr, try_, _short
 
@@ -353,7 +354,9 @@ def run(run):
     ]
     run.rule = ("exhaustive: all And/Or predicate trees up to 4 (quick) / 5 (thorough) leaves over 4 atoms + factoring-shaped random trees: real rewrite_filters vs proved model; "
                 "scenario grid: operator kind crossed x predicate x consumer x nulls (NaN / pd.NA) x partitions vs pandas; join table how x side x suffixes; "
-                "non-trivial = factoring fired / scenario executed")
+                "reader hand-over: parquet (both readers, several file / row-group layouts, NaN / None / pd.NA, user filters) x And/Or/Not shapes up to 3 (quick) / 4 (thorough) leaves x "
+                "every assignment of {reader-expressible comparison, other term} to the leaves x 14 surroundings of the filter vs pandas on the data read in full (and the unoptimized plan); "
+                "non-trivial = factoring fired / scenario executed / the leaves take all valuations on the data")
     run.proofs("PropC03.v")
     m = common.Model()
     preds.sweep(run, m, run.tier == "quick")
@@ -361,3 +364,4 @@ def run(run):
     join_table(run)
     targeted(run)
     cast_grid(run)
+    c03_reader.reader_sweep(run)
